@@ -4,6 +4,8 @@ import (
 	"context"
 	"encoding/binary"
 	"fmt"
+	"runtime"
+	"strings"
 	"sync"
 	"sync/atomic"
 	"time"
@@ -181,6 +183,9 @@ type SessionOpts struct {
 	Repo       *headers.Repository // nil = fresh mainnet repository at genesis
 	TxTimeout  time.Duration
 	Config     *bitcoin_reader.Config
+	// HeaderHandler installs an alternate headers handler (as NodeManager does for every node when
+	// its owner set one): a second, throw-away repository's HandleHeadersMessage
+	HeaderHandler bool
 }
 
 var BSVSplitHeader = headers.MainNetRequiredHeader
@@ -204,6 +209,11 @@ func StartSession(ctx context.Context, o SessionOpts) (*Session, error) {
 	s.Node = bitcoin_reader.NewBitcoinNode(p.Addr(), "/verif:1/", cfg, s.Headers, s.Peers)
 	if o.VerifyOnly {
 		s.Node.SetVerifyOnly()
+	}
+	if o.HeaderHandler {
+		side := headers.NewRepository(headers.DefaultConfig(), common.NewMemStore())
+		side.InitializeWithGenesis()
+		s.Node.SetHeaderHandler(side.HandleHeadersMessage)
 	}
 	if o.WithTx {
 		to := o.TxTimeout
@@ -310,4 +320,86 @@ func (s *Session) WaitRunReturn(timeout time.Duration) bool {
 	case <-time.After(timeout):
 		return false
 	}
+}
+
+// ReaderState classifies what the node's read side is doing, from the goroutine dump: the
+// goroutines whose stack carries this node as receiver (readIncoming, handleMessage and the
+// per-message handler goroutine). "waiting-for-bytes": parked in a network read (everything that
+// was sent has been consumed); "blocked-on-lock": parked on a sync lock; "busy": anything else
+// (running, runnable, waiting on its own handler that is running, ...); "gone": no such goroutine.
+func (s *Session) ReaderState() string {
+	ptr := fmt.Sprintf("(%p", s.Node)
+	buf := make([]byte, 64<<20)
+	n := runtime.Stack(buf, true)
+	var reader, handler, writer string
+	for _, g := range strings.Split(string(buf[:n]), "\n\n") {
+		if !strings.Contains(g, ptr) {
+			continue
+		}
+		lines := strings.SplitN(g, "\n", 2)
+		state := ""
+		if i := strings.Index(lines[0], "["); i >= 0 {
+			state = strings.TrimSuffix(lines[0][i+1:], "]:")
+			if j := strings.Index(state, ","); j >= 0 {
+				state = state[:j]
+			}
+		}
+		switch {
+		case strings.Contains(g, ".sendOutgoing"+ptr):
+			writer = state
+		case strings.Contains(g, ".readIncoming"+ptr):
+			reader = state
+		case strings.Contains(g, ".handleMessage.func1") || (strings.Contains(g, "bitcoin_reader.(*BitcoinNode).handle") && !strings.Contains(g, ".readIncoming"+ptr) && !strings.Contains(g, ".sendOutgoing"+ptr)):
+			if handler == "" || state != "IO wait" {
+				handler = state
+			}
+		}
+	}
+	class := func(st string) string {
+		switch {
+		case st == "IO wait":
+			return "waiting-for-bytes"
+		case strings.HasPrefix(st, "sync.") || st == "semacquire":
+			return "blocked-on-lock"
+		}
+		return "busy"
+	}
+	if writer != "" && writer != "chan receive" {
+		return "busy" // an answer may still be on its way out
+	}
+	switch {
+	case reader == "":
+		return "gone"
+	case reader == "select" && handler != "":
+		return class(handler)
+	case reader == "select":
+		return "busy"
+	}
+	return class(reader)
+}
+
+// NodeGoroutines returns, for the witness of a no-answer verdict, state and innermost frames of
+// every goroutine whose stack carries this node as receiver.
+func (s *Session) NodeGoroutines() []string {
+	ptr := fmt.Sprintf("(%p", s.Node)
+	buf := make([]byte, 64<<20)
+	n := runtime.Stack(buf, true)
+	var out []string
+	for _, g := range strings.Split(string(buf[:n]), "\n\n") {
+		if !strings.Contains(g, ptr) {
+			continue
+		}
+		lines := strings.Split(g, "\n")
+		var fr []string
+		for _, l := range lines[1:] {
+			if !strings.HasPrefix(l, "\t") && len(fr) < 9 {
+				if i := strings.Index(l, "("); i > 0 {
+					l = l[:i]
+				}
+				fr = append(fr, l[strings.LastIndex(l, "/")+1:])
+			}
+		}
+		out = append(out, lines[0]+" "+strings.Join(fr, " < "))
+	}
+	return out
 }
